@@ -128,7 +128,52 @@ func c08Runtime(pc progCase, r *Result) {
 	if !hasTag(pc.Tags, "vm-only") {
 		check("tree", RunTree(a, defaultOpts()))
 	}
+	// the same program as an imported module: its text is unchanged (a public entry function is
+	// appended behind it), so every position keeps its coordinates but must now name `lib`
+	if len(pc.P.Text) > 0 && !strings.Contains(pc.P.Text, "$") && !strings.Contains(pc.P.Text, "trigger ") {
+		libText := pc.P.Text + c08LibTail
+		mods := map[string]string{"main": c08ImporterMain, "lib": libText}
+		ai := Analyze(mods, true)
+		if ai.Obs.Class == "HOST-PANIC" || !ai.Obs.Accepted() {
+			r.Note("imported-variant-not-accepted", 1)
+			return
+		}
+		files = mods
+		inLib := func(backend string, o Obs) {
+			if crashClass(o) != "" || o.Class != ref.Class {
+				r.Note("imported-variant-outcome-differs("+backend+")", 1)
+				if f := os.Getenv("C08_DEBUG"); f != "" {
+					if fh, err := os.OpenFile(f, os.O_APPEND|os.O_CREATE|os.O_WRONLY, 0o644); err == nil {
+						fmt.Fprintf(fh, "C08DBG %s: %s\nreference: %s\n%s\n", backend, o.String(), ref.Class, libText)
+						fh.Close()
+					}
+				}
+				return
+			}
+			tags := append([]string{"backend:" + backend, "interrupt:" + o.Class + kindSuffix(o.Kind), "as:imported-module"}, pc.Tags...)
+			cas := "// module lib (imported by: " + strings.ReplaceAll(c08ImporterMain, "\n", " ") + ")\n" + libText
+			if o.Span.Filename != "lib" {
+				r.Fail("SPAN:interrupt:names another file than the module of the culprit", tags, cas, "span "+showSpan(o.Span)+" in file "+o.Span.Filename)
+				return
+			}
+			if p := spanProblem(o.Span, files); p != "" {
+				r.Fail("SPAN:interrupt:"+p, tags, cas, "span "+showSpan(o.Span))
+				return
+			}
+			if culprit != nil && !within(o.Span, withSemicolon(*culprit, pc.P.Text)) {
+				r.Fail("SPAN:interrupt:outside the "+what, tags, cas, fmt.Sprintf("span %s, culprit %d:%d-%d:%d", showSpan(o.Span), culprit.Start.Line, culprit.Start.Col, culprit.End.Line, culprit.End.Col))
+			}
+		}
+		inLib("vm", RunVM(ai, defaultOpts()))
+		if !hasTag(pc.Tags, "vm-only") {
+			inLib("tree", RunTree(ai, defaultOpts()))
+		}
+		r.Trans(2)
+	}
 }
+
+const c08LibTail = "\npub fn c08_entry() { main(); }\n"
+const c08ImporterMain = "import { c08_entry } from lib;\nfn main() {\n    c08_entry();\n}\n"
 
 // ---------------------------------------------------------------- B: front-end positions
 
@@ -267,6 +312,31 @@ func c08CulpritRun(idx int, r *Result) {
 	if !within(first.Span, rng) {
 		r.Fail("SPAN:diagnostic:outside the culprit", tags, text, fmt.Sprintf("%q span %s, culprit %d:%d-%d:%d (%q)", first.Message, showSpan(first.Span), rng.Start.Line, rng.Start.Col, rng.End.Line, rng.End.Col, c.culprit))
 	}
+	// the same text as an imported module
+	libMods := map[string]string{"main": c08ImporterMain, "lib": text + c08LibTail}
+	ai := Analyze(libMods, true)
+	r.Trans(1)
+	if ai.Obs.Class == "HOST-PANIC" {
+		r.Note("analyzer-panic(C05)", 1)
+		return
+	}
+	itags := append([]string{"as:imported-module"}, tags...)
+	icas := "// module lib (imported by main)\n" + text + c08LibTail
+	for i := range ai.Diags {
+		d := ai.Diags[i]
+		if d.Level != diagnostic.DiagnosticLevelError || d.Message != first.Message {
+			continue
+		}
+		if d.Span.Filename != "lib" {
+			r.Fail("SPAN:diagnostic:names another file than the module of the culprit", itags, icas, fmt.Sprintf("%q span %s in file %q", d.Message, showSpan(d.Span), d.Span.Filename))
+		} else if p := spanProblem(d.Span, libMods); p != "" {
+			r.Fail("SPAN:diagnostic:"+p, itags, icas, fmt.Sprintf("%q span %s", d.Message, showSpan(d.Span)))
+		} else if !within(d.Span, rng) {
+			r.Fail("SPAN:diagnostic:outside the culprit", itags, icas, fmt.Sprintf("%q span %s, culprit %d:%d-%d:%d (%q)", d.Message, showSpan(d.Span), rng.Start.Line, rng.Start.Col, rng.End.Line, rng.End.Col, c.culprit))
+		}
+		return
+	}
+	r.Note("imported-variant:diagnostic-not-repeated", 1)
 }
 
 // mutated texts: for every base text and every position (stride), one character deleted or
